@@ -232,6 +232,21 @@ func init() {
 		}
 		return bvInt(0)
 	}
+	// vProcStart / vProcExit: a child process the harness controls (natively a real /bin/sh that exits with
+	// the code written to its stdin; in the engine an *exec.Cmd whose Wait blocks until vProcExit)
+	prims["vProcStart"] = func(ex *Exec, fr *Frame, site ssa.Instruction, a []Value) Value {
+		t := ex.eng.lookupType("os/exec", "Cmd")
+		p := newPtr(zero(t))
+		engState[procState](ex, "proc", p)
+		return p
+	}
+	prims["vProcExit"] = func(ex *Exec, fr *Frame, site ssa.Instruction, a []Value) Value {
+		p := a[0].(*Value)
+		st := engState[procState](ex, "proc", p)
+		st.exited = true
+		st.code = ex.concreteInt(a[1], "exit code", site)
+		return nil
+	}
 	prims["vGoroutines"] = func(ex *Exec, fr *Frame, site ssa.Instruction, a []Value) Value {
 		// goroutines of the code under test that have not finished (the calling goroutine excluded)
 		n := 0
@@ -341,3 +356,30 @@ func (ex *Exec) doAssert(label string, cond *Term, site ssa.Instruction) {
 }
 
 var _ = types.Typ
+
+type procState struct {
+	exited bool
+	code   int
+	waited bool
+}
+
+func init() {
+	reg("(*os/exec.Cmd).Wait", func(ex *Exec, fr *Frame, site ssa.Instruction, a []Value) Value {
+		p := nilCheck(fr, site, a[0])
+		m, _ := ex.hctx["proc"].(map[*Value]*procState)
+		st := m[p]
+		if st == nil {
+			// a Cmd that was never started: exec: not started
+			return ex.makeError(mkStr("exec: not started"))
+		}
+		if st.waited {
+			return ex.makeError(mkStr("exec: Wait was already called"))
+		}
+		ex.blockUntil(func() bool { return st.exited }, "process exit", site)
+		st.waited = true
+		if st.code == 0 {
+			return Iface{}
+		}
+		return ex.makeError(mkStr(fmt.Sprintf("exit status %d", st.code)))
+	})
+}
